@@ -276,6 +276,10 @@ func c15(r *Report, s *Sem) {
 					r.Check(K, construct+" (K3)", pos, true, "waits for a helper that was just forced to fail by an immediate deadline")
 					continue
 				}
+				if bs.kind == "chan receive" && releasedHelperWait(bs.in) {
+					r.Check(K, construct+" (K3)", pos, true, "waits for a watcher goroutine that was released just before (its stop channel is closed on every path to this receive)")
+					continue
+				}
 				if bs.kind == "chan send" && neverBlocks(bs.in.(*ssa.Send)) {
 					r.Check(K, construct+" (K4)", pos, true, "own buffered channel, one send per call")
 					continue
@@ -349,6 +353,68 @@ func c15(r *Report, s *Sem) {
 			if g.Name() == "HandshakeContext" {
 				polled = true
 			}
+			// … or a watcher goroutine, started before the handshake, forces an immediate deadline on the same
+			// connection as soon as the operation's context is done (the K3 idiom of the WebSocket transport)
+			hsConn := stripConv(c.Call.Args[0])
+			eachInstr(f, func(in2 ssa.Instruction) {
+				gi, ok := in2.(*ssa.Go)
+				if !ok || !instrDominates(gi, c) {
+					return
+				}
+				mc, ok := gi.Call.Value.(*ssa.MakeClosure)
+				if !ok {
+					return
+				}
+				w := mc.Fn.(*ssa.Function)
+				eachInstr(w, func(in3 ssa.Instruction) {
+					sel, ok := in3.(*ssa.Select)
+					if !ok {
+						return
+					}
+					for i, st := range sel.States {
+						cv, isDone := isCtxDoneChan(st.Chan)
+						if !isDone || st.Dir != types.RecvOnly || !ctxFromParam(cv, 0) {
+							continue
+						}
+						arm := selectArmBlock(sel, i)
+						if arm == nil {
+							continue
+						}
+						for b := range reachBlocks(arm, nil) {
+							for _, x := range b.Instrs {
+								fc, isCall := x.(*ssa.Call)
+								if !isCall {
+									continue
+								}
+								g4 := fc.Call.StaticCallee()
+								if g4 == nil || (g4.Name() != "SetDeadline" && g4.Name() != "SetReadDeadline") || len(fc.Call.Args) < 2 {
+									continue
+								}
+								sameConn := false
+								for _, l := range leaves(fc.Call.Args[0]) {
+									if stripConv(l) == hsConn {
+										sameConn = true
+									}
+									for _, l2 := range leaves(c.Call.Args[0]) {
+										if stripConv(l) == stripConv(l2) {
+											sameConn = true
+										}
+									}
+								}
+								now := false
+								if call, _ := callOf(fc.Call.Args[1]); call != nil {
+									if g5 := call.Call.StaticCallee(); g5 != nil && g5.Pkg != nil && g5.Pkg.Pkg.Path() == "time" && g5.Name() == "Now" {
+										now = true
+									}
+								}
+								if sameConn && now {
+									polled = true
+								}
+							}
+						}
+					}
+				})
+			})
 			// constructs are named by role (the private type's name is not part of the key of a known finding)
 			r.Check(D, "Transport.SetEncryption (TLS upgrade) / TLS handshake deadline derives from the context", p.instrPos(c), usesCtx || polled, "in func "+fnName(f)+": the upgrade must end at the context's deadline")
 			r.Check(D, "Transport.SetEncryption (TLS upgrade) / TLS handshake honours cancellation within the poll interval", p.instrPos(c), polled || (fallback > 0 && fallback <= 5*time.Second),
@@ -392,6 +458,75 @@ func forcedDeadlineBefore(in ssa.Instruction) bool {
 		}
 	})
 	return found
+}
+
+// releasedHelperWait: `<-stopped` where stopped is a local channel closed (deferred) by a goroutine literal of this function
+// whose only blocking operation is a select with an arm receiving from another local channel that this function closes
+// on every path before the receive.
+func releasedHelperWait(in ssa.Instruction) bool {
+	u, ok := in.(*ssa.UnOp)
+	if !ok || u.Op != token.ARROW {
+		return false
+	}
+	fn := in.Parent()
+	var stopped *ssa.MakeChan
+	for _, l := range leaves(u.X) {
+		if m, ok := stripConv(l).(*ssa.MakeChan); ok && m.Parent() == fn {
+			stopped = m
+		}
+	}
+	if stopped == nil {
+		return false
+	}
+	isChan := func(v ssa.Value, m *ssa.MakeChan) bool {
+		for _, l := range leaves(v) {
+			if stripConv(l) == ssa.Value(m) {
+				return true
+			}
+		}
+		return false
+	}
+	ok = false
+	for _, w := range fn.AnonFuncs {
+		// started with go, closes `stopped` in a defer
+		closes := false
+		eachInstr(w, func(x ssa.Instruction) {
+			if d, isDefer := x.(*ssa.Defer); isDefer {
+				if b, isB := d.Call.Value.(*ssa.Builtin); isB && b.Name() == "close" && isChan(d.Call.Args[0], stopped) {
+					closes = true
+				}
+			}
+		})
+		if !closes {
+			continue
+		}
+		// its select has an arm on a channel that fn closes before the wait
+		eachInstr(w, func(x ssa.Instruction) {
+			sel, isSel := x.(*ssa.Select)
+			if !isSel {
+				return
+			}
+			for _, st := range sel.States {
+				if st.Dir != types.RecvOnly {
+					continue
+				}
+				for _, l := range leaves(st.Chan) {
+					stop, isMk := stripConv(l).(*ssa.MakeChan)
+					if !isMk || stop.Parent() != fn || stop == stopped {
+						continue
+					}
+					eachCall(fn, func(c ssa.CallInstruction) {
+						if b, isB := c.Common().Value.(*ssa.Builtin); isB && b.Name() == "close" && isChan(c.Common().Args[0], stop) {
+							if ci, isInstr := c.(ssa.Instruction); isInstr && instrDominates(ci, in) {
+								ok = true
+							}
+						}
+					})
+				}
+			}
+		})
+	}
+	return ok
 }
 
 // helperDrained: a channel operation inside a function literal started with `go` in its parent, on a channel the parent
